@@ -10,6 +10,7 @@ import (
 	"time"
 
 	"verif/harness/concd"
+	"verif/harness/formatsd"
 	"verif/harness/morassd"
 	"verif/harness/vt"
 )
@@ -48,6 +49,16 @@ func main() {
 		morassd.ConcTraces(w, vt.Rand(*seed, "morassconc"), *n)
 		w.Close()
 		fmt.Printf("runs=%d events=%d\n", *n, w.N)
+	case "formats/random":
+		w := vt.Create(*out)
+		formatsd.Random(w, vt.Rand(*seed, "formats"), *n, *big)
+		w.Close()
+		fmt.Printf("events=%d\n", w.N)
+	case "formats/emitted":
+		w := vt.Create(*out)
+		k := formatsd.ReadEmitted(w, *in)
+		w.Close()
+		fmt.Printf("files=%d\n", k)
 	case "conc/map":
 		w := vt.Create(*out)
 		concd.MapCalls(w, vt.Rand(*seed, "map"), *n, true)
